@@ -82,48 +82,70 @@ def run(chk, prog):
     m, rf = prog.func("_record", MOD)
     inner = prog.nested(rf, "inner")
     wh = [n for n in ast.walk(inner) if isinstance(n, ast.While)]
-    okw = len(wh) == 1 and isinstance(wh[0].test, ast.Name)
-    der = ""
-    roles = {}
+    if len(wh) != 1:
+        raise AnalysisError(f"_record.inner: expected one driver loop, found {len(wh)}")
+    # two spellings of the driver loop are recognised (anything else is an unrecognised form, exit 2 - not a verdict):
+    #   A  r, nxt = resume(source, args); while nxt: <unpack, append, tag> ; r, nxt = resume(frame.cont, frame.args)
+    #   B  fn, a = source, args; while True: r, nxt = resume(fn, a); if not nxt: break; <unpack, tag, append>; fn, a = frame.cont, frame.args
+    body = list(wh[0].body)
+    loopvar = wh[0].test.id if isinstance(wh[0].test, ast.Name) else None
+    if loopvar is None and isinstance(wh[0].test, ast.Constant) and wh[0].test.value is True:
+        for st in body:
+            if isinstance(st, ast.If) and isinstance(st.test, ast.UnaryOp) and isinstance(st.test.op, ast.Not) and isinstance(st.test.operand, ast.Name) and len(st.body) == 1 and isinstance(st.body[0], ast.Break) and not st.orelse:
+                loopvar = st.test.operand.id
+                body = [x for x in body if x is not st]
+    if loopvar is None:
+        raise AnalysisError("_record.inner: unrecognised driver loop form (neither `while <next>:` nor `while True: ... if not <next>: break`)")
+    der = " ; ".join(ast.unparse(s) for s in body)[:300]
+    roles, pos = {}, {}
+    is_resume = lambda v: isinstance(v, ast.Call) and isinstance(v.func, ast.Call) and ast.unparse(v.func.func) == "time_travel" and len(v.func.args) == 1 and len(v.args) == 1 and isinstance(v.args[0], ast.Starred)
+    for i, st in enumerate(body):
+        if isinstance(st, ast.Assign) and isinstance(st.value, ast.Name) and st.value.id == loopvar and isinstance(st.targets[0], ast.Tuple) and len(st.targets[0].elts) == 2:
+            roles["tag"], roles["frame"] = (e.id for e in st.targets[0].elts)
+            pos["unpack"] = i
+    for i, st in enumerate(body):
+        for n in ast.walk(st):
+            if isinstance(n, ast.Call) and isinstance(n.func, ast.Attribute) and n.func.attr == "append" and len(n.args) == 1 and isinstance(n.args[0], ast.Name) and n.args[0].id == roles.get("frame"):
+                roles["seq"] = ast.unparse(n.func.value)
+                pos["append"] = i
+            if isinstance(n, ast.Assign) and isinstance(n.targets[0], ast.Subscript) and isinstance(n.targets[0].slice, ast.Name) and n.targets[0].slice.id == roles.get("tag"):
+                roles["table"] = ast.unparse(n.targets[0].value)
+                roles["index"] = ast.unparse(n.value).replace(" ", "")
+                pos["jump"] = i
+        if isinstance(st, ast.Assign) and isinstance(st.targets[0], ast.Tuple) and len(st.targets[0].elts) == 2 and isinstance(st.targets[0].elts[1], ast.Name) and st.targets[0].elts[1].id == loopvar and is_resume(st.value):
+            roles["resume"] = st.value
+            roles["retval"] = ast.unparse(st.targets[0].elts[0])
+            pos["resume"] = i
+    okw = all(k in pos for k in ("unpack", "append", "jump", "resume")) and pos["unpack"] < pos["append"] and pos["unpack"] < pos["jump"]
     if okw:
-        body = wh[0].body
-        loopvar = wh[0].test.id
-        der = " ; ".join(ast.unparse(s) for s in body)[:300]
-        # role discovery by dataflow, not by names: (tag, frame) unpacked from the loop variable; the list the frame is appended to; the tag table
-        pos = {}
-        for i, st in enumerate(body):
-            if isinstance(st, ast.Assign) and isinstance(st.value, ast.Name) and st.value.id == loopvar and isinstance(st.targets[0], ast.Tuple) and len(st.targets[0].elts) == 2:
-                roles["tag"], roles["frame"] = (e.id for e in st.targets[0].elts)
-                pos["unpack"] = i
-            for n in ast.walk(st):
-                if isinstance(n, ast.Call) and isinstance(n.func, ast.Attribute) and n.func.attr == "append" and len(n.args) == 1 and isinstance(n.args[0], ast.Name) and n.args[0].id == roles.get("frame"):
-                    roles["seq"] = ast.unparse(n.func.value)
-                    pos["append"] = i
-                if isinstance(n, ast.Assign) and isinstance(n.targets[0], ast.Subscript) and isinstance(n.targets[0].slice, ast.Name) and n.targets[0].slice.id == roles.get("tag"):
-                    roles["table"] = ast.unparse(n.targets[0].value)
-                    roles["index"] = ast.unparse(n.value).replace(" ", "")
-                    pos["jump"] = i
-            if isinstance(st, ast.Assign) and isinstance(st.targets[0], ast.Tuple) and len(st.targets[0].elts) == 2 and isinstance(st.targets[0].elts[1], ast.Name) and st.targets[0].elts[1].id == loopvar and i != pos.get("unpack"):
-                roles["resume"] = st.value
-                roles["retval"] = ast.unparse(st.targets[0].elts[0])
-                pos["resume"] = i
-        okw = all(k in pos for k in ("unpack", "append", "jump", "resume")) and pos["unpack"] < pos["append"] < pos["jump"] < pos["resume"] and roles.get("index") == f"len({roles.get('seq')})-1"
-        if okw:
-            # the resumed continuation and its arguments come from the frame just recorded
-            rs = roles["resume"]
+        # the tag maps to the index of the frame recorded in this iteration: len(seq) - 1 once it is appended, len(seq) just before
+        okw = roles.get("index") == (f"len({roles['seq']})-1" if pos["jump"] > pos["append"] else f"len({roles['seq']})")
+    if okw:
+        rs = roles["resume"]
+        c, a_ = ast.unparse(rs.func.args[0]), ast.unparse(rs.args[0].value)
+        fr = roles["frame"]
+
+        def pairs(stmts):
             env_ = {}
-            for st in body:
+            for st in stmts:
                 if isinstance(st, ast.Assign) and isinstance(st.targets[0], ast.Tuple) and isinstance(st.value, ast.Tuple):
                     for tgt, v in zip(st.targets[0].elts, st.value.elts):
                         env_[ast.unparse(tgt)] = ast.unparse(v)
                 elif isinstance(st, ast.Assign) and isinstance(st.targets[0], ast.Name):
                     env_[st.targets[0].id] = ast.unparse(st.value)
-            okw = isinstance(rs, ast.Call) and isinstance(rs.func, ast.Call) and ast.unparse(rs.func.func) == "time_travel" and len(rs.func.args) == 1 and len(rs.args) == 1 and isinstance(rs.args[0], ast.Starred)
-            if okw:
-                c = ast.unparse(rs.func.args[0])
-                a_ = ast.unparse(rs.args[0].value)
-                fr = roles["frame"]
-                okw = env_.get(c, c) == f"{fr}.cont" and env_.get(a_, a_) == f"{fr}.args"
+            return env_
+        if pos["resume"] > pos["unpack"]:
+            # form A: resumed at the end of the iteration from the frame just recorded; the first resume precedes the loop
+            env_ = pairs(body[: pos["resume"]])
+            okw = env_.get(c, c) == f"{fr}.cont" and env_.get(a_, a_) == f"{fr}.args"
+            first = [n.value for n in inner.body if isinstance(n, ast.Assign) and is_resume(n.value)]
+            okw = okw and len(first) == 1 and ast.unparse(first[0].func.args[0]) == "source" and ast.unparse(first[0].args[0].value) == "args"
+        else:
+            # form B: resumed at the top from loop-carried (continuation, arguments), initialised with (source, args) and re-bound from this frame after recording
+            env_loop = pairs(body[pos["unpack"]:])
+            pre = inner.body[: inner.body.index(wh[0])] if wh[0] in inner.body else []
+            env_pre = pairs(pre)
+            okw = env_loop.get(c) == f"{fr}.cont" and env_loop.get(a_) == f"{fr}.args" and env_pre.get(c) == "source" and env_pre.get(a_) == "args"
     chk.require(okw, "FRAME-ORDER", "_record.inner/loop", "one frame per resumed continuation, in resume order; the tag index is the frame just appended", derived=der,
                 expected="while next: (tag, frame) = next; sequence.append(frame); if tag: jump_points[tag] = len(sequence) - 1; retval, next = time_travel(frame.cont)(*frame.args)", where=f"{m.rel}:{inner.lineno}")
     rets = [n for n in ast.walk(inner) if isinstance(n, ast.Return)]
